@@ -168,14 +168,20 @@ class AirTouchSocket(Generic[comms.Hdr]):
     async def open_socket(self) -> None:
         """Open the socket to the AirTouch."""
         if not self.is_open:
-            self._schedule_connect()
             self.is_open = True
+            self._schedule_connect()
 
     async def close(self) -> None:
         """Close the socket to the AirTouch."""
         if self.is_open:
-            await self._disconnect()
             self.is_open = False
+            # Stop any pending (or delayed) connection attempt, otherwise it
+            # would connect after the socket has been closed.
+            if self._connect_task and (
+                self._connect_task is not asyncio.current_task()
+            ):
+                self._connect_task.cancel()
+            await self._disconnect()
 
     async def send(self, message: comms.Message, retry_policy: RetryPolicy) -> None:
         """Send a message to the AirTouch.
@@ -274,8 +280,9 @@ class AirTouchSocket(Generic[comms.Hdr]):
         self, coro: Coroutine[Any, Any, Any], delay: Optional[float] = None
     ) -> asyncio.Task[Any]:
         """Schedule a co-routine to run in the background with an optional delay."""
+        inner_coro = coro
         if delay:
-            coro = _delay(coro, delay)
+            coro = _delay(inner_coro, delay)
 
         task = self._loop.create_task(coro)
         # Store a reference to the task as per the create_task documentation.
@@ -283,6 +290,9 @@ class AirTouchSocket(Generic[comms.Hdr]):
 
         def discard_task(task: asyncio.Task[Any]) -> None:
             self._background_tasks.discard(task)
+            if task.cancelled():
+                # A delayed co-routine may be cancelled before it was started.
+                inner_coro.close()
             with contextlib.suppress(asyncio.CancelledError):
                 ex = task.exception()
                 if ex:
@@ -300,14 +310,16 @@ class AirTouchSocket(Generic[comms.Hdr]):
         a re-connection at the same time. Only one attempt may be in flight,
         otherwise each of them would open its own connection.
         """
+        if not self.is_open:
+            return
         pending = self._connect_task
         if pending and not pending.done() and pending is not asyncio.current_task():
             return
         self._connect_task = self._schedule(self._connect(), delay=delay)
 
     async def _connect(self) -> None:
-        if self.is_connected:
-            _LOGGER.debug("_connect ignored. Already connected")
+        if self.is_connected or not self.is_open:
+            _LOGGER.debug("_connect ignored. Already connected or closed")
             return
 
         _LOGGER.debug("Attempting to open connection to %s:%d", self.host, self.port)
@@ -339,8 +351,10 @@ class AirTouchSocket(Generic[comms.Hdr]):
             # wait_closed could raise an error if the socket has been closed by
             # the other side. This will already have been logged, so just
             # suppress it here.
+            # The wait is shielded because all waiters share one future: if a
+            # task waiting here is cancelled, the others must not be.
             with contextlib.suppress(OSError):
-                await self._writer.wait_closed()
+                await asyncio.shield(self._writer.wait_closed())
 
         self.is_connected = False
         self._reader = None
